@@ -53,14 +53,47 @@ def build_tools(rep):
         src = os.path.join(V, 'harness', 'cmd', name)
         if not os.path.exists(os.path.join(src, 'main.go')):
             continue
-        # built with statement-coverage counters for the corebgp package: the evidence reports how much of the
-        # anchored Go code the run really executed
-        rc, out = sh(['go', 'build', '-cover', '-coverpkg=github.com/jwhited/corebgp,verif/harness/cmd/' + name, '-tags', 'verif', '-o', os.path.join(BUILD, name), './cmd/' + name],
+        # the binary whose output is judged is a plain build. (Coverage instrumentation is NOT semantics-preserving
+        # for this module: go.mod says go 1.21, and the instrumented build was observed to hide a shared-loop-variable
+        # capture bug that the plain build exhibits.)
+        rc, out = sh(['go', 'build', '-tags', 'verif', '-o', os.path.join(BUILD, name), './cmd/' + name],
                      cwd=os.path.join(V, 'harness'), env=GOENV, timeout=900)
         if rc:
             ok = False
             rep.broken.append(('tie2', f'harness {name} does not build against /repo with -tags verif', out[-4000:]))
+            continue
+        # a second build with statement-coverage counters for the corebgp package, run on the same arguments with its
+        # output discarded: the evidence reports how much of the anchored Go code the generators / scenarios execute
+        rc, out = sh(['go', 'build', '-cover', '-coverpkg=github.com/jwhited/corebgp,verif/harness/cmd/' + name, '-tags', 'verif', '-o', os.path.join(BUILD, name + '-cov'), './cmd/' + name],
+                     cwd=os.path.join(V, 'harness'), env=GOENV, timeout=900)
+        if rc:
+            try:
+                os.remove(os.path.join(BUILD, name + '-cov'))
+            except OSError:
+                pass
     return ok
+
+
+def cov_pass(name, args):
+    """start the coverage-instrumented twin of build/<name> on the same arguments (output discarded)"""
+    import subprocess
+    exe = os.path.join(BUILD, name + '-cov')
+    if not os.path.exists(exe) or os.environ.get('VERIF_NOCOV'):
+        return None
+    os.makedirs(COVDIR, exist_ok=True)
+    try:
+        return subprocess.Popen([exe] + args, stdout=subprocess.DEVNULL, stderr=subprocess.DEVNULL, env=dict(GOENV, GOCOVERDIR=COVDIR))
+    except OSError:
+        return None
+
+
+def cov_wait(p, timeout=900):
+    if p is None:
+        return
+    try:
+        p.wait(timeout=timeout)
+    except Exception:
+        p.kill()
 
 
 def lake_build(targets, timeout=7200):
@@ -180,7 +213,7 @@ def lean_obligations(rep):
 
 # ----------------------------------------------------------------------------- L0 differential
 
-def l0_pipeline(args, tag):
+def l0_pipeline(args, tag, cov=False):
     """run build/l0 with args, pipe through the driver; returns list of (case, impl, verdict tuple)"""
     cases = os.path.join(WORK, f'cases_{tag}.txt')
     verd = os.path.join(WORK, f'verdicts_{tag}.txt')
@@ -188,8 +221,10 @@ def l0_pipeline(args, tag):
         rc = subprocess_run_to(f, [os.path.join(BUILD, 'l0')] + args)
     if rc:
         return None, f'l0 harness exited with {rc}'
+    cp = cov_pass('l0', args) if cov else None
     with open(cases) as fi, open(verd, 'w') as fo:
         rc = subprocess_run_to(fo, [DRIVER, 'l0'], stdin=fi)
+    cov_wait(cp)
     if rc:
         return None, f'driver exited with {rc}'
     out = []
@@ -211,8 +246,7 @@ COVDIR = os.path.join(WORK, 'cov')
 
 def subprocess_run_to(fout, cmd, stdin=None):
     import subprocess
-    os.makedirs(COVDIR, exist_ok=True)
-    p = subprocess.run(cmd, stdin=stdin, stdout=fout, stderr=subprocess.PIPE, env=dict(GOENV, GOCOVERDIR=COVDIR))
+    p = subprocess.run(cmd, stdin=stdin, stdout=fout, stderr=subprocess.PIPE, env=GOENV)
     if p.returncode:
         sys.stderr.write(p.stderr.decode(errors='replace')[-2000:])
     return p.returncode
@@ -258,7 +292,7 @@ def run_l0(rep, tier=None, seed=None, tag=None):
             rep.broken.append(('tie2', 'L0 engine failed on the corpus', err))
         else:
             absorb_l0(rep, res, 'l0-corpus', sample=False)
-    res, err = l0_pipeline(['-prop', pid, '-tier', tier, '-seed', str(seed)], tag)
+    res, err = l0_pipeline(['-prop', pid, '-tier', tier, '-seed', str(seed)], tag, cov=(tag == f'{pid}_{tier}_{seed}'))
     if res is None:
         rep.broken.append(('tie2', 'L0 engine failed', err))
         return
@@ -270,7 +304,7 @@ def run_l0(rep, tier=None, seed=None, tag=None):
 LIVE_RE = re.compile(r'^S (\S+) (ok|FAIL) ?(.*)$')
 
 
-def live_pipeline(args, tag):
+def live_pipeline(args, tag, cov=False):
     """run build/live with args, pipe the traces through the driver; returns (results, traces, err)"""
     import subprocess
     tr = os.path.join(WORK, f'traces_{tag}.txt')
@@ -279,8 +313,11 @@ def live_pipeline(args, tag):
         rc = subprocess_run_to(f, [os.path.join(BUILD, 'live')] + args)
     if rc:
         return None, None, f'live harness exited with {rc}'
+    # coverage twin: after the judged run has finished (no interference with its timing), while the driver works
+    cp = cov_pass('live', ['quick' if a == 'thorough' else a for a in args]) if cov else None
     with open(tr) as fi, open(vd, 'w') as fo:
         rc = subprocess_run_to(fo, [DRIVER, 'live'], stdin=fi)
+    cov_wait(cp)
     if rc:
         return None, None, f'driver exited with {rc}'
     traces, cur, name = {}, [], None
@@ -322,7 +359,8 @@ def run_live(rep, tier=None, seed=None):
     tier = tier or rep.tier
     seed = rep.seed if seed is None else seed
     par = str(os.cpu_count() or 8)
-    res, traces, err = live_pipeline(['-prop', rep.pid, '-tier', tier, '-seed', str(seed), '-par', par], f'{rep.pid}_{tier}_{seed}')
+    res, traces, err = live_pipeline(['-prop', rep.pid, '-tier', tier, '-seed', str(seed), '-par', par], f'{rep.pid}_{tier}_{seed}',
+                                     cov=(tier == rep.tier and seed == rep.seed))
     if res is None:
         rep.broken.append(('tie2', 'live engine failed', err))
         return
